@@ -788,7 +788,7 @@ Lemma f_join_agr pol l s : nuP l -> nuP s -> agr nuP (f_join PProbe l s) (f_join
 Proof.
   intros Hl Hs. unfold f_join.
   eapply agr_bind; [apply sequence_arg_agr, Hl|]. intros items Hi.
-  eapply agr_bind; [apply py_str_agr, Hs|]. intros sep _.
+  eapply agr_bind; [apply tls_agr, Hs|]. intros sep _.
   eapply agr_bind; [apply mapM_agr_T; [exact Hi|intros; apply tls_agr; assumption]|].
   intros; apply agr_ok; reflexivity.
 Qed.
@@ -941,6 +941,24 @@ Proof.
      |apply agr_oof]).
 Qed.
 
+Lemma uniq_eq_ref pol a b : refines (uniq_eq pol a b) (uniq_eq PDefault a b).
+Proof.
+  unfold uniq_eq. destruct a; try apply liq_eq_ref. destruct b; try apply liq_eq_ref.
+  destruct pol; try apply liq_eq_ref. apply refines_pyexc.
+Qed.
+Lemma uniq_eq_nouerr pol a b : quiet pol -> nouerr (uniq_eq pol a b).
+Proof.
+  intro Q. unfold uniq_eq. destruct a; try (apply liq_eq_nouerr; exact Q). destruct b; try (apply liq_eq_nouerr; exact Q).
+  destruct Q; subst; apply liq_eq_nouerr; auto with nue.
+Qed.
+Lemma uniq_eq_agr pol a b : nuP a -> nuP b -> agr T (uniq_eq PProbe a b) (uniq_eq pol a b).
+Proof.
+  intros Ha Hb. unfold uniq_eq. destruct a; try (apply liq_eq_agr; assumption).
+  unfold nuP in Ha; simpl in Ha; discriminate.
+Qed.
+#[export] Hint Resolve uniq_eq_ref : ref.
+#[export] Hint Resolve uniq_eq_nouerr : nue.
+
 Lemma seen_before_ref pol l x : refines (seen_before pol l x) (seen_before PDefault l x).
 Proof. induction l; simpl; ref_tac. Qed.
 Lemma seen_before_nouerr pol l x : quiet pol -> nouerr (seen_before pol l x).
@@ -949,22 +967,27 @@ Lemma seen_before_agr pol l x : nuL l -> nuP x -> agr T (seen_before PProbe l x)
 Proof.
   unfold nuL. intros Hl Hx. induction l as [|y l IH]; simpl in *; [agr_tac|].
   apply andb_true_iff in Hl as [H1 H2].
-  eapply agr_bind; [apply py_eq_agr; assumption|]. intros [] _; [agr_tac|apply IH, H2].
+  eapply agr_bind; [apply uniq_eq_agr; assumption|]. intros [] _; [agr_tac|apply IH, H2].
 Qed.
 #[export] Hint Resolve seen_before_ref : ref.
 #[export] Hint Resolve seen_before_nouerr : nue.
 
 Lemma uniq_go_ref pol p l : refines (uniq_go pol p l) (uniq_go PDefault p l).
-Proof. revert p; induction l; intro p; simpl; ref_tac. Qed.
+Proof.
+  revert p; induction l as [|x l IH]; intro p; simpl; [apply refines_refl|].
+  apply refines_bind; [apply seen_before_ref|]. intro b. apply IH.
+Qed.
 Lemma uniq_go_nouerr pol p l : quiet pol -> nouerr (uniq_go pol p l).
-Proof. intro; revert p; induction l; intro p; simpl; nue_tac. Qed.
+Proof.
+  intro Q; revert p; induction l as [|x l IH]; intro p; simpl; [apply nouerr_ok|].
+  apply nouerr_bind; [apply seen_before_nouerr, Q|]. intro b. apply IH.
+Qed.
 Lemma uniq_go_agr pol p l : nuL p -> nuL l -> agr nuL (uniq_go PProbe p l) (uniq_go pol p l).
 Proof.
-  unfold nuL. revert p. induction l as [|x l IH]; intros p Hp Hl; simpl in *; [agr_tac|].
+  unfold nuL. revert p. induction l as [|x l IH]; intros p Hp Hl; simpl in *; [apply agr_ok; exact Hp|].
   apply andb_true_iff in Hl as [H1 H2].
   eapply agr_bind; [apply seen_before_agr; assumption|]. intros b _.
-  eapply agr_bind; [apply IH; [rewrite forallb_app', Hp; simpl; rewrite H1; reflexivity|exact H2]|].
-  intros r Hr. apply agr_ok. destruct b; [exact Hr|]. unfold nuL in *; simpl. rewrite H1. exact Hr.
+  apply IH; [|exact H2]. destruct b; [exact Hp|]. rewrite forallb_app', Hp; simpl; rewrite H1; reflexivity.
 Qed.
 #[export] Hint Resolve uniq_go_ref : ref.
 #[export] Hint Resolve uniq_go_nouerr : nue.
@@ -1029,7 +1052,7 @@ Proof.
     (eapply agr_bind; [apply to_int_arg_agr; exact Hs|]; intros st _;
      eapply agr_bind; [apply to_int_arg_agr; destruct l; try reflexivity; exact Hl|]; intros ln _;
      destruct v'; try apply agr_pyexc; apply agr_ok; unfold nuP in *; simpl in *;
-     try reflexivity; apply py_slice_nu, Hv').
+     try reflexivity; destruct (_ <? - _); [reflexivity|apply py_slice_nu, Hv']).
 Qed.
 
 Lemma f_split_ref pol v s : refines (f_split pol v s) (f_split PDefault v s).
